@@ -1,4 +1,6 @@
 import HC.Proofs.Frame
+import HC.Proofs.Torn
+import HC.Props.C02
 /-!
 # C07 — a torn final write is tolerated like a clean crash
 
@@ -9,6 +11,18 @@ import HC.Proofs.Frame
 * `torn_header_falls_back` : if `validate_leader` rejects one header slot (this is where the CRC is
   relied on: hypothesis `validateLeader torn = none`), `Oplog::open` uses the other slot and derives
   header bits whose *current bit* equals the bit the surviving entries carry.
+
+* **`torn_atomic`** (the property itself, on the model of the crate, for a writer): after any history of
+  calls and reopen steps, take any further call (append_batch, clear or a read), any storage operation `k`
+  of it and any number `t` of bytes — the stores as they are when the process dies during operation `k`
+  and, if it is a write, only its first `t` bytes arrive (`LogSpec.tornDisk`).  `Hypercore::new` on these
+  stores succeeds and the recovered core represents the log before the call or the log after it, for torn
+  data, bitfield-page, tree-node and log-entry writes **without any assumption** (a half-written page
+  decodes, bit by bit, to the old or the new value and the replay tolerates that; a half-written node slot
+  is shadowed by the entry that carries the node, or rewrites bytes that were already there; a strict
+  prefix of an entry frame is no frame, and `Oplog::open` cuts it off), and for a torn header write under
+  the one assumption the format itself relies on: the checksum rejects the half-written slot (`hcrc`).
+  `torn_then_continue`: the recovered core stays usable.
 
 Partial: that a torn header slot (new bytes over old bytes) fails the CRC is an assumption
 (`CrcDetects`), evaluated by the harness on every torn state it generates.
@@ -40,5 +54,64 @@ theorem torn_header_falls_back (existing : Bytes) (b : Leader) (hdr : Header) (r
   refine ⟨⟨{ bits := (!b.headerBit, b.headerBit) }, hdr, [], []⟩, ?_, rfl, ?_, rfl⟩
   · simp [openLog, readLog, e1, e2, e3, h1, h2, hd]
   · simp [State.currentBit, Spec.currentBit]
+
+/-! ### the crate's model: every torn write of every call -/
+
+section Model
+open HC.LogSpec HC.LiveRefine HC.TreeStore HC.Persist HC.Crash HC.Torn HC.C01
+
+/-- the assumption on the checksum: if operation `k` of the call is a header write (an oplog write inside the
+    two header slots), the slot it leaves half written does not validate -/
+def CrcDetects (C : Crypto) (s : Core × Disk) (op : Op) (k t : Nat) : Prop :=
+  ∀ off bs, (journalC C s op)[k]? = some (.write .oplog off bs) → off < Spec.entriesOffset →
+    validateLeader (((tornDisk C s op k t).oplog.toList.drop off).take Spec.headerSize) = none
+
+/-- **C07**, from any state that satisfies the representation and ghost invariants -/
+theorem torn_atomic_from (C : Crypto) (hC : HashWF C) (hS : SignWF C) (hTw : TreeWF C) (c : Core) (d : Disk) (hf : Header)
+    (a0 a : Abs) (es : List Entry) (hrep : Rep C c d a) (hp : Persist C c d hf a0 es a) (op : Op) (hv : Valid a op)
+    (hl : Limits a op) (k t : Nat) (hcrc : CrcDetects C (c, d) op k t) :
+    ∃ c' jo, Core.openCore C none (tornDisk C (c, d) op k t) = .ok (c', jo)
+      ∧ (Rep C c' ((tornDisk C (c, d) op k t).applyAll jo) a ∨ Rep C c' ((tornDisk C (c, d) op k t).applyAll jo) (a.step op).1) := by
+  rcases torn_step C hC hS hTw c d hf a0 a es hrep hp op hv hl k t hcrc with ⟨hf', a0', es', hd⟩ | ⟨hf', a0', es', hd⟩
+  · obtain ⟨c', jo, ho, hr⟩ := durable_open C hC hTw _ hf' a0' es' _ hd
+    exact ⟨c', jo, ho, Or.inl hr⟩
+  · obtain ⟨c', jo, ho, hr⟩ := durable_open C hC hTw _ hf' a0' es' _ hd
+    exact ⟨c', jo, ho, Or.inr hr⟩
+
+/-- **C07.**  Any history of a freshly created core, any further call, any of its storage operations torn
+    after any number of bytes: reopening succeeds and the recovered core represents the log before the call
+    or the log after it. -/
+theorem torn_atomic (C : Crypto) (hC : HashWF C) (hS : SignWF C) (hTw : TreeWF C) (pk sk : Bytes)
+    (hpk : pk.length = 32) (hsk : sk.length = 32) (steps : List HStep) (hok : AllOK {} steps) (op : Op)
+    (hv : Valid (runA' {} steps).1 op) (hl : Limits (runA' {} steps).1 op) (k t : Nat) :
+    ∃ c j, Core.openCore C (some (pk, some sk)) {} = .ok (c, j) ∧
+      (CrcDetects C (runC' C (c, ({} : Disk).applyAll j) steps).1 op k t →
+        ∃ c' jo, Core.openCore C none (tornDisk C (runC' C (c, ({} : Disk).applyAll j) steps).1 op k t) = .ok (c', jo)
+          ∧ (Rep C c' ((tornDisk C (runC' C (c, ({} : Disk).applyAll j) steps).1 op k t).applyAll jo) (runA' {} steps).1
+            ∨ Rep C c' ((tornDisk C (runC' C (c, ({} : Disk).applyAll j) steps).1 op k t).applyAll jo) ((runA' {} steps).1.step op).1)) := by
+  obtain ⟨c, j, h1, h2, h3⟩ := init_both C pk sk hpk hsk
+  obtain ⟨hrep, hf, a0, es, hp⟩ := C02.history_invariants_reopen C hC hS hTw steps c _ {} _ {} [] h2 h3 hok
+  exact ⟨c, j, h1, fun hcrc => torn_atomic_from C hC hS hTw _ _ hf a0 _ es hrep hp op hv hl k t hcrc⟩
+
+/-- the core recovered from a torn write stays usable: every further sequence of calls behaves like the
+    abstract log it recovered to -/
+theorem torn_then_continue (C : Crypto) (hC : HashWF C) (hS : SignWF C) (hTw : TreeWF C) (c : Core) (d : Disk) (hf : Header)
+    (a0 a : Abs) (es : List Entry) (hrep : Rep C c d a) (hp : Persist C c d hf a0 es a) (op : Op) (hv : Valid a op)
+    (hl : Limits a op) (k t : Nat) (hcrc : CrcDetects C (c, d) op k t) (more : List Op) :
+    ∃ c' jo, Core.openCore C none (tornDisk C (c, d) op k t) = .ok (c', jo)
+      ∧ ((AllValid a more → (runC C (c', (tornDisk C (c, d) op k t).applyAll jo) more).2 = (runA a more).2)
+        ∨ (AllValid (a.step op).1 more → (runC C (c', (tornDisk C (c, d) op k t).applyAll jo) more).2 = (runA (a.step op).1 more).2)) := by
+  obtain ⟨c', jo, h2, h3⟩ := torn_atomic_from C hC hS hTw c d hf a0 a es hrep hp op hv hl k t hcrc
+  refine ⟨c', jo, h2, ?_⟩
+  rcases h3 with h3 | h3
+  · exact Or.inl fun hvm => (live_refinement C hC more c' _ _ h3 hvm).1
+  · exact Or.inr fun hvm => (live_refinement C hC more c' _ _ h3 hvm).1
+
+/-- the checksum assumption only concerns header writes: for every operation that is not an oplog write inside
+    the header slots it holds vacuously (e.g. the data write that opens an append) -/
+example (C : Crypto) (s : Core × Disk) (op : Op) (t : Nat) (h : ∀ off bs, (journalC C s op)[0]? ≠ some (.write .oplog off bs)) :
+    CrcDetects C s op 0 t := fun off bs hget _ => absurd hget (h off bs)
+
+end Model
 
 end HC.C07
